@@ -202,7 +202,8 @@ class Recorder:
         self.ambiguous.update(d["ambiguous"])
         self.per_sub.update(d["per_sub"])
         for s in d["samples"]:
-            if len(self.samples) < 2 * self.MAX_SAMPLES:
+            same = sum(1 for t in self.samples if t["sub"] == s["sub"])
+            if same < 3 and len(self.samples) < 24:
                 self.samples.append(s)
 
 
